@@ -1,5 +1,7 @@
 package main
 
+import "strings"
+
 // C04: removal-heavy histories on the detached-node cluster of c06.go (same engine, same line
 // format, command C04.run). Heartbeats are written with timestamps at or just below the current
 // second so that removals land in the same second as, or seconds after, the last heartbeat; every
@@ -26,6 +28,12 @@ func runC04(e *env) {
 		return c06Opts{nNodes: 2 + r.intn(3), mult: 1 + r.intn(3), lit: pick(r, []int{0, 300}), ni: r.chance(1, 5),
 			nEvents: r.intn(14), removal: 35, startDelta: 2 + r.intn(2), xWeight: 1, script: "prefixdrop"}
 	})
+	// replace-in-one-CAS writes: ONE local update removes N live instances and registers M >= N fresh ones (no
+	// tombstone retained yet, so the stored ring is not larger than the update's result), then gossip / full state
+	c06RunMany(e, "C04.run", 150*e.scale, 18, func(i int, r *rng) c06Opts {
+		return c06Opts{nNodes: 2 + r.intn(3), mult: 1 + r.intn(3), lit: pick(r, []int{0, 300}), ni: r.chance(1, 5),
+			nEvents: r.intn(12), removal: 35, startDelta: 3, xWeight: 1, script: "replace"}
+	})
 	// retention stream: hours-old entries and tombstones against a one-hour retention
 	c06RunMany(e, "C04.run", 250*e.scale, 12, func(i int, r *rng) c06Opts {
 		return c06Opts{nNodes: 2 + r.intn(2), mult: 2, lit: 3600, gcOld: true, nEvents: 12 + r.intn(24), removal: 30, startDelta: 3, xWeight: 1}
@@ -43,4 +51,69 @@ func runC04(e *env) {
 	c06RunMany(e, "C04.run", 60*e.scale, 14, func(i int, r *rng) c06Opts {
 		return c06Opts{nNodes: 2 + r.intn(2), mult: 2, lit: 0, skew: true, nEvents: 12 + r.intn(20), removal: 40, startDelta: 3, xWeight: 1}
 	})
+}
+
+// scriptReplace: instances `old` are registered at A and known to B; then ONE CAS at A removes nRm of them and
+// registers nAdd >= nRm instances never seen before (ops in random order), so the update's result is not smaller
+// than the stored ring. A must stop showing the removed instances and hold their tombstones, the next gossip batch
+// (or full state) must carry them, B must stop showing them, and the older registrations delivered again stay blocked.
+func (c *c06Case) scriptReplace() {
+	r := c.r
+	a := r.intn(c.o.nNodes)
+	b := (a + 1 + r.intn(c.o.nNodes-1)) % c.o.nNodes
+	key := pick(r, []string{"r1", "r2"})
+	ids := append([]string{}, c06RingIDs...)
+	for i := len(ids) - 1; i > 0; i-- {
+		k := r.intn(i + 1)
+		ids[i], ids[k] = ids[k], ids[i]
+	}
+	hb := func(id string) string {
+		d, _ := c.nextDelta(key + id)
+		return "hb:" + id + ":" + itoa(d) + ":" + stateCode[pick(r, c06States)] + ":" + itoa(1+r.intn(15))
+	}
+	nOld := 1 + r.intn(2)
+	old, fresh := ids[:nOld], ids[nOld:]
+	var reg []string
+	for _, id := range old {
+		reg = append(reg, hb(id))
+	}
+	c.doCAS(a, key, strings.Join(reg, "+"))
+	if r.chance(1, 2) {
+		c.doWatch(a, false, key)
+	}
+	c.doGossip(a)
+	for m := range c.pool {
+		c.doDeliver(b, m)
+	}
+	nRm := 1 + r.intn(nOld)
+	nAdd := nRm + r.intn(len(fresh)-nRm+1)
+	var ops []string
+	for _, id := range old[:nRm] {
+		ops = append(ops, "rm:"+id)
+	}
+	for _, id := range fresh[:nAdd] {
+		ops = append(ops, hb(id))
+	}
+	for i := len(ops) - 1; i > 0; i-- {
+		k := r.intn(i + 1)
+		ops[i], ops[k] = ops[k], ops[i]
+	}
+	nPool := len(c.pool)
+	c.doCAS(a, key, strings.Join(ops, "+"))
+	if r.chance(2, 3) {
+		c.doGossip(a)
+		for m := nPool; m < len(c.pool); m++ {
+			c.doDeliver(b, m)
+		}
+	} else {
+		c.doPushPull(a, b, "", 0)
+	}
+	// the registrations produced before the removal arrive again at both nodes
+	for m := 0; m < nPool; m++ {
+		c.doDeliver(b, m)
+		if r.chance(1, 2) {
+			c.doDeliver(a, m)
+		}
+	}
+	c.doSettle("st")
 }
